@@ -487,8 +487,8 @@ Lemma span_digits l rest : forallb is_digit l = true -> span is_digit_b (l ++ sp
 Proof. intros H. apply span_app; [exact H|reflexivity]. Qed.
 
 (* a FORMAT statement records nothing, whatever its body, with or without a blank before "(" *)
-Theorem format_inert lab sp body st : label_ok lab = true -> existsb (Ascii.eqb nl) (flat body) = false ->
-  line_step st (render_stmt (SFormat lab sp body)) = Some st.
+Lemma format_inert_gen app lab sp body st : label_ok lab = true -> existsb (Ascii.eqb nl) (flat body) = false ->
+  line_step_gen app st (render_stmt (SFormat lab sp body)) = Some st.
 Proof.
   intros Hl Hb. unfold label_ok in Hl. apply andb_true_iff in Hl as [Hn Hd].
   assert (Hf : format_re (render_stmt (SFormat lab sp body)) = true).
@@ -507,6 +507,10 @@ Proof.
     cbn [snd] in E3. subst x3. change (Ascii.eqb lpar lpar) with true. cbn iota.
     destruct (span_to_rpar (flat body) [] Hb) as (z & Hz).
     destruct (span _ (flat body ++ [rpar])) as [u v]. cbn [snd] in Hz. subst v. reflexivity. }
-  unfold line_step. destruct st as [a calls]. now rewrite Hf.
+  unfold line_step_gen. destruct st as [a calls]. now rewrite Hf.
 Qed.
+
+Theorem format_inert lab sp body st : label_ok lab = true -> existsb (Ascii.eqb nl) (flat body) = false ->
+  line_step st (render_stmt (SFormat lab sp body)) = Some st.
+Proof. exact (format_inert_gen append_calls lab sp body st). Qed.
 
